@@ -766,6 +766,17 @@ func (env *Env) call(e *Expr) *Val {
 		n.cur = stt
 		n.fr = stt.top()
 		return n.eval(e.Args[0])
+	case "defined":
+		// defined(x): the local x has been assigned on this path (lets a clause mention locals of a later part of a loop body)
+		if len(e.Args) != 1 || e.Args[0].Op != "ident" {
+			env.fail("defined() takes a local's name")
+		}
+		_, inVars := env.vars[e.Args[0].Name]
+		inFrame := false
+		if env.fr != nil {
+			_, inFrame = env.fr.names[e.Args[0].Name]
+		}
+		return scalar(boolTerm(inVars || inFrame), boolT)
 	case "isSlot":
 		a := env.eval(e.Args[0])
 		return scalar(App("isSlot", SBool, recast(a.T, SRef)), boolT)
